@@ -7,28 +7,13 @@
 #include <algorithm>
 
 #include "world.hpp"
+#include "tstate.hpp"
 
 namespace djsim
 {
 namespace v2 = djinterop::engine::v2;
 using tp = std::chrono::system_clock::time_point;
 
-struct World::TState
-{
-    std::optional<v2::engine_library> lib;
-    std::map<int64_t, v2::track_row> rows;
-    struct PL
-    {
-        std::string title;
-        int64_t parent = 0;
-    };
-    std::map<int64_t, PL> lists;
-    std::map<int64_t, std::vector<int64_t>> order;  // parent -> ordered children
-    std::map<int64_t, std::vector<int64_t>> ents;   // list -> ordered track ids
-    int range = 0;  // 0: 2.18.0, 1: 2.20.1-2.20.2, 2: >= 2.20.3
-    std::string uuid;
-    uint64_t rowuniq = 0;
-};
 
 void World::TStateDeleter::operator()(TState* p) const { delete p; }
 
